@@ -14,7 +14,10 @@
  *     mode bit 0: producers use push_threads batches too; bit 1: consumers use
  *     pop_threads / pop_wait / legacy pop too; bit 2: producers also try
  *     ABT_pool_remove of their own units (MM / SM only); bit 3 (RANDWS):
- *     non-default contexts (push-head producers, pop-tail consumers).
+ *     non-default contexts (push-head producers, pop-tail consumers); bit 4: batch atomicity - producers push
+ *     only aligned batches of 4 with ABT_pool_push_threads, consumers pop only with ABT_pool_pop_threads(8):
+ *     push_many / pop_many are single queue operations, so every pop returns whole batches, each contiguous
+ *     and in order (units/prod must be a multiple of 4, leave = 0).
  * Output: one line per scenario: "OK ..." or "VIOL ...". */
 #include <abt.h>
 #include "vh_common.h"
@@ -84,7 +87,10 @@ static void *producer(void *arg)
         ABT_pool_context ctx = (g_mode & 8) ? ABT_POOL_CONTEXT_OP_THREAD_CREATE : ABT_POOL_CONTEXT_OP_POOL_OTHER;
         while (i < g_upp) {
             int k = 1;
-            if ((g_mode & 1) && (vh_rand(&rs) & 1)) {
+            if (g_mode & 16) {
+                k = 4;
+                ABT_pool_push_threads(g_pool, &g_units[base + i], k);
+            } else if ((g_mode & 1) && (vh_rand(&rs) & 1)) {
                 k = 1 + (int)(vh_rand(&rs) % 4);
                 if (k > g_upp - i)
                     k = g_upp - i;
@@ -133,12 +139,28 @@ static void *consumer(void *arg)
         pthread_barrier_wait(&g_bar);
         ABT_pool_context ctx = (g_mode & 8) ? ABT_POOL_CONTEXT_OWNER_SECONDARY : ABT_POOL_CONTEXT_OP_POOL_OTHER;
         while (atomic_load(&g_taken) < g_target && !atomic_load(&g_viol)) {
-            int how = (g_mode & 2) ? (int)(vh_rand(&rs) % 5) : 0;
-            long claim = (how == 1) ? 3 : 1;
+            int how = (g_mode & 16) ? 5 : (g_mode & 2) ? (int)(vh_rand(&rs) % 5) : 0;
+            long claim = (how == 1) ? 3 : (how == 5) ? 8 : 1;
             long before = atomic_load(&g_pushed_done);
             atomic_fetch_add(&g_claims, claim);
             long got = 0;
-            if (how == 1) {
+            if (how == 5) {
+                ABT_thread ts[8];
+                size_t num = 0, i;
+                ABT_pool_pop_threads(g_pool, ts, 8, &num);
+                if (num % 4)
+                    viol("pop_threads(8) returned %ld units while only whole batches of 4 are ever pushed and popped: "
+                         "a batch was visible half-way (pushes completed before the call: %ld, round %ld)", (long)num, before,
+                         (long)r);
+                for (i = 0; i < num && i < 8; i++) {
+                    int id = id_of(ts[i]);
+                    if (i % 4 == 0 ? id % 4 != 0 : id != id_of(ts[i - 1]) + 1)
+                        viol("pop_threads(8): unit %ld at position %ld does not continue its batch (previous unit %ld): "
+                             "batches interleaved", (long)id, (long)i, (long)(i ? id_of(ts[i - 1]) : -1));
+                    record(c, ts[i]);
+                }
+                got = (long)num;
+            } else if (how == 1) {
                 ABT_thread ts[3];
                 size_t num = 0;
                 if (g_mode & 8)
